@@ -107,3 +107,36 @@ Proof.
     unfold handle_auto, finish. rewrite Hp. destruct (expect1 glibc_ntop6 h). reflexivity.
 Qed.
 Print Assumptions C18_exact_model.
+
+(* The readers written as coroutines (one step per recv_into call, the places
+   where gevent can switch to another connection; every per-call buffer is
+   local to the suspended reader) compute exactly the big-step functions the
+   theorems above are about. *)
+Theorem C18_smallstep_refines : forall pton6 ntop6 s,
+  run_proc (p_process_v1 pton6 ntop6 []) s = process_pp_v1 pton6 ntop6 [] s /\
+  run_proc (p_process_v2 ntop6 []) s = process_pp_v2 ntop6 [] s /\
+  run_proc (p_process_auto pton6 ntop6) s = process_auto pton6 ntop6 s.
+Proof.
+  intros pton6 ntop6 s.
+  split; [apply run_p_process_v1|split; [apply run_p_process_v2|apply run_p_process_auto]].
+Qed.
+Print Assumptions C18_smallstep_refines.
+
+(* Any number of connections served concurrently, any schedule of whose
+   recv_into returns next (picks), any readers: connection j is always in the
+   state of having made its own steps only, and once its reader has finished
+   its result and its socket are those of running alone on its own byte stream
+   and read sizes.  With C18_smallstep_refines every theorem above therefore
+   holds per connection under every interleaving. *)
+Theorem C18_connections_independent : forall picks cs j p s,
+  nth_error cs j = Some (p, s) ->
+  nth j (run_conns picks cs) (p, s) = iter_step (count_pick j picks) (p, s) /\
+  (forall r s', nth_error (run_conns picks cs) j = Some (PDone r, s') -> run_proc p s = (r, s')).
+Proof.
+  intros picks cs j p s Hj. split.
+  - assert (Hlen : (j < length cs)%nat) by (apply nth_error_Some; rewrite Hj; discriminate).
+    rewrite (run_conns_nth picks cs j (p, s) Hlen).
+    f_equal. exact (nth_error_nth cs j (p, s) Hj).
+  - intros r s' Hr. exact (connections_independent picks cs j p s r s' Hj Hr).
+Qed.
+Print Assumptions C18_connections_independent.
